@@ -232,8 +232,10 @@ def _propagate_through_helpers(ctx, R, modules):
                             continue        # the helper keeps (awaits / drops) the result itself: its own obligation
                         ok = any(x.kind in kinds and x.depth == 0 and x.b and (inner & set(x.b)) for x in seg)
                         if not ok and not fn.is_coro:
+                            # (accumulated into a local list that is returned after the loop)
                             ok = any(x.kind == 'LADD' and x.b and (inner & set(x.b)) for x in seg) and (
-                                any(x.kind == 'RETURN' and x.depth == 0 for x in seg) or status == 'loopcut')
+                                any(x.kind == 'RETURN' and x.depth == 0 and x.b and (inner & set(x.b)) for x in evs[j + 1:])
+                                or status == 'loopcut')
                     if not ok and is_failure(seg, status) and not any(x.kind == 'HANDLED' for x in seg):
                         ok = True
                     if not ok and cls.name == 'Stream' and fn.name in _emit_family(M):
@@ -741,39 +743,54 @@ FULL_AWAITABLE_TESTS = ('isawaitable', 'gen.isawaitable', 'inspect.isawaitable')
 
 
 def check_awaitable_result(ctx, R, classes):
-    """see RULES['AWAITABLE-RESULT'].  Sites = update() methods with a path that returns the user callable's own result."""
+    """see RULES['AWAITABLE-RESULT'].  Sites = update() methods with a path that returns the user callable's own result.
+    Decided on symbolic normal forms: `if isawaitable(r): return r / else: return []`, a conditional expression, a named
+    boolean and negated tests are the same thing."""
+    from ..symexpr import SymEval, norm_cond
+    M = ctx.model
     for cls in classes:
         up = cls.find('update')
-        if up is None or up.cls is ctx.model.stream or up.is_coro:
+        if up is None or up.cls is M.stream or up.is_coro or not up.module.name.startswith('streamz'):
             continue
-        paths = [(st, status) for st, status in ctx.paths(up, cls) if status != 'raise']
+        try:
+            recs = [r for r in SymEval(M, cls).run(up) if not r.raised]
+        except AnalysisError:
+            continue
 
-        def ret_is_result(st):
-            rets = [e for e in st.events if e.kind == 'RETURN' and e.depth == 0]
-            return bool(rets) and any(t.startswith('ucall:') for t in (rets[-1].b or ()))
-        if not any(ret_is_result(st) for st, _ in paths):
+        def ucalls(r):
+            out = []
+            for c, _s, _l in r.calls:
+                if isinstance(c, ast.Call) and isinstance(c.func, ast.Attribute) and isinstance(c.func.value, ast.Name) \
+                        and c.func.value.id == 'self' and cls.find(c.func.attr) is None and c.func.attr not in ('loop',):
+                    out.append(src(c))
+            return out
+        returning = [r for r in recs if r.ret is not None and src(r.ret) in ucalls(r)]
+        if not returning:
             continue
         con = ctx.construct(up)
         bad, n = None, 0
-        for st, status in paths:
-            evs = st.events
-            if not any(e.kind == 'UCALL' for e in evs) or ret_is_result(st):
+        for r in recs:
+            us = ucalls(r)
+            if not us or (r.ret is not None and src(r.ret) in us):
                 continue
             n += 1
-            # the result is dropped on this path: a complete awaitability test of it must have been false
+            # the result is dropped on this path: a complete awaitability test of it must have been found false
             ok = False
-            for e in evs:
-                c = (e.x or {}).get('node') if e.kind == 'COND' else None
-                while isinstance(c, ast.UnaryOp) and isinstance(c.op, ast.Not):
-                    c = c.operand           # (e.b is the outcome of the test with its negations folded in)
-                if e.kind == 'COND' and e.b is False and isinstance(c, ast.Call):
-                    if src(c.func) in FULL_AWAITABLE_TESTS and len(c.args) == 1 and any(
-                            t.startswith('ucall:') for t in ((e.x or {}).get('arg_tags') or ())):
-                        ok = True
+            for t, o in r.conds:
+                if t.startswith('<'):
+                    continue
+                t2, o2 = norm_cond(t, o)
+                try:
+                    e = ast.parse(t2, mode='eval').body
+                except SyntaxError:
+                    continue
+                if o2 is False and isinstance(e, ast.Call) and src(e.func) in FULL_AWAITABLE_TESTS and len(e.args) == 1 \
+                        and src(e.args[0]) in us:
+                    ok = True
             if not ok:
-                bad = evs
+                bad = '; '.join('%s is %s' % c for c in r.conds if not c[0].startswith('<'))[:200] or 'unconditionally'
         if n:
             R.ob('AWAITABLE-RESULT', con, 'result', bad is None,
-                 'the user function\'s result is dropped on a path that has not found gen.isawaitable(result) false: an awaitable '
-                 'of a kind the narrower test does not know escapes unawaited (no backpressure, a native coroutine never runs)',
-                 ctx.where(up, up.node.lineno), fmt_path(bad) if bad else None, n)
+                 'the user function\'s result is dropped on a path that has not found gen.isawaitable(result) false [%s]: an '
+                 'awaitable of a kind the narrower test does not know escapes unawaited (no backpressure, a native coroutine '
+                 'never runs)' % bad, ctx.where(up, up.node.lineno), None, n)
